@@ -8,7 +8,8 @@ Only clauses that are *necessary* for the dependent property are listed.
 DEPENDS = {
     "C01": {"C02": (["R2", "R3"], "lazy parse must run before extra/offset change (round trip with extra header bytes); "
                                    "a parse that fails part-way must leave the message decodable again (raw body restored "
-                                   "as received, not in a half-decoded form)")},
+                                   "as received, not in a half-decoded form)"),
+            "C13": (["R2"], "LLQuaternion variables are decoded through Quaternion.__init__: it must keep the wire components")},
     "C02": {"C01": (["R1", "R2", "R3", "R4", "R5", "R6", "R7", "R8", "R11"],
                     "a parsed body is re-encoded through the codec: pass-through fidelity needs codec agreement"),
             "C03": (["R1", "R2"], "canonical zero-coding is what makes re-encoding byte-identical")},
@@ -16,7 +17,9 @@ DEPENDS = {
     "C04": {"C07": (["R3"], "a finalized message must never be translated twice (stability of the wire id)"),
             "C05": (["R2"], "every ack rewrite must go through the inverse translation (no bypass)")},
     "C05": {"C01": (["R4"], "acks are carried by the header flag / trailer the codec frames")},
-    "C06": {"C01": (["R4", "R6", "R7", "R8"], "a datagram that cannot be framed/parsed cannot be forwarded intact"),
+    "C06": {"C01": (["R1", "R4", "R6", "R7", "R8"], "a datagram that cannot be framed/parsed cannot be forwarded intact; "
+                                                    "re-encoded content needs value-preserving pack/unpack pairs"),
+            "C03": (["R1", "R2"], "forwarded re-encoded messages are zero-coded by zero_code_compress"),
             "C02": (["R1", "R2"], "forwarded content intact = raw body pass-through, also after a failed parse"),
             "C07": (["R3", "R5"], "exactly once on the wire"),
             "C05": (["R8"], "a datagram can only be forwarded on the region's circuit: the reference must not be "
@@ -25,13 +28,16 @@ DEPENDS = {
             "C19": (["R6"], "one subscriber's (un)subscription must not skip another subscriber")},
     "C08": {"C09": (["R6", "R8"], "round trip in plain-data mode needs the pod flag to reach every delegated decoder; "
                                    "a size query must not see a half-computed cached size")},
-    "C09": {"C08": (["R1", "R2", "R3", "R6", "R7", "R8", "R9", "R10", "R11", "R12", "R13", "R14"], "subfield serializers are built from the combinators"),
-            "C10": (["R1", "R2", "R3", "R4"], "quantised members of subfield templates")},
+    "C09": {"C08": (["R1", "R2", "R3", "R6", "R7", "R8", "R9", "R10", "R11", "R12", "R13", "R14", "R15", "R16"], "subfield serializers are built from the combinators"),
+            "C10": (["R1", "R2", "R3", "R4", "R5"], "quantised members of subfield templates"),
+            "C11": (["R7"], "a packed value that switches on a sibling needs that sibling in place when it is encoded")},
     "C10": {},
     "C11": {"C09": (["R2", "R4", "R5", "R6", "R7"], "beautified text goes through the subfield serializers (pod form)"),
             "C10": (["R1", "R3", "R4"], "pretty-printed quantised / fixed-point subfields must re-encode exactly")},
-    "C12": {"C18": (["R6"], "LLSDMessageSerializer ends in Message.from_dict / to_dict: key agreement")},
-    "C13": {"C08": (["R1", "R2", "R3", "R6", "R7", "R8", "R9", "R10", "R11", "R12", "R13", "R14"], "both decoders share the combinator sub-templates")},
+    "C12": {"C18": (["R6", "R12"], "LLSDMessageSerializer ends in Message.from_dict / to_dict: key agreement; reals are "
+                                   "written at full precision by every LLSD formatter")},
+    "C13": {"C10": (["R1"], "packed rotations: the adapter around the quantiser must not compute on the value"),
+            "C08": (["R1", "R2", "R3", "R6", "R7", "R8", "R9", "R10", "R11", "R12", "R13", "R14", "R15", "R16"], "both decoders share the combinator sub-templates")},
     "C14": {"C13": (["R1", "R2"], "the tracker consumes the hand-written compressed decoder"),
             "C07": (["R2"], "handlers run under Event.notify's isolation")},
     "C15": {"C07": (["R8"], "a stale taking subscriber on http_message_handler take()s flows that nobody resumes"),
@@ -41,6 +47,6 @@ DEPENDS = {
     "C18": {"C12": (["R1"], "logged EQ events are decoded by LLSDMessageSerializer without mutating the retained event")},
     "C19": {"C01": (["R4", "R6", "R8"], "a packet whose header cannot be parsed is neither acked nor delivered"),
             "C07": (["R2"], "delivery to each subscriber needs Event.notify's isolation")},
-    "C20": {"C08": (["R1", "R2", "R3", "R8", "R9", "R10", "R11", "R12", "R13", "R14"], "mesh and animation codecs are built from the combinators"),
+    "C20": {"C08": (["R1", "R2", "R3", "R8", "R9", "R10", "R11", "R12", "R13", "R14", "R15", "R16"], "mesh and animation codecs are built from the combinators"),
             "C12": (["R2", "R3", "R5", "R6", "R7"], "inventory LLSD flavours go through the LLSD codecs")},
 }
